@@ -14,20 +14,47 @@ from pedal.sandbox import timeout as T
 OLD_THREADS = set()   # abandoned threads of EARLIER cases (a program that swallows BaseException never dies)
 
 
+ALL_CREATED = []   # every InterruptableThread ever started (threading.enumerate() forgets threads it believes stopped)
+_orig_start = T.InterruptableThread.start
+
+
+def _recording_start(self, *a, **k):
+    ALL_CREATED.append(self)
+    return _orig_start(self, *a, **k)
+
+
+T.InterruptableThread.start = _recording_start
+
+
 def student_threads():
-    return [t for t in threading.enumerate() if isinstance(t, T.InterruptableThread) and t not in OLD_THREADS]
+    return [t for t in ALL_CREATED if t not in OLD_THREADS and running(t)]
+
+
+def running(t):
+    # Thread.is_alive() cannot be trusted here: an exception delivered to a thread while it sits in join() makes CPython mark
+    # the JOINED thread as stopped although it still runs; the interpreter's own table of frames is the truth
+    return t.ident in sys._current_frames()
 
 
 def wait_dead(threads, limit=2.5):
     t0 = time.time()
-    for t in threads:
-        t.join(max(0.0, limit - (time.time() - t0)))
-    return all(not t.is_alive() for t in threads)
+    while any(running(t) for t in threads) and time.time() - t0 < limit:
+        time.sleep(0.02)
+    return all(not running(t) for t in threads)
 
 
 def run_case(case):
-    contextualize_report(case['program'])
+    if case.get('files'):
+        from pedal.core.submission import Submission
+        contextualize_report(Submission(files=dict(case['files']), main_file='answer.py'))
+    else:
+        contextualize_report(case['program'])
     S.clear_sandbox()
+    if case.get('warmup'):
+        # the sandbox was used before and its history cleared (as an instructor script does between parts)
+        S.run('warm = 1\nprint("warm")\n')
+        S.run('print("warm again")\n')
+        S.clear_sandbox()
     sb = S.get_sandbox()
     sb.allowed_time = case['allowed']
     sched = case['schedule']
@@ -59,7 +86,7 @@ def run_case(case):
         elif point == 'timeout.handler':
             reached['handler'].set()
     T._VERIF_SYNC = sync
-    OLD_THREADS.update(t for t in threading.enumerate() if isinstance(t, T.InterruptableThread))
+    OLD_THREADS.update(ALL_CREATED)
     real_stdout = sys.stdout
     out = {'schedule': sched}
     t0 = time.time()
@@ -70,6 +97,11 @@ def run_case(case):
                 int('x')
             except ValueError:
                 S.run(threaded=True)
+        elif case.get('files'):
+            # the time limit switched on for the whole sandbox (as the command line's threaded mode does): imports of other
+            # student files are time-limited too
+            sb.threaded = True
+            S.run()
         else:
             S.run(threaded=True)
     except BaseException as e:
